@@ -217,6 +217,13 @@ def get_c2c_expansion__count__end_size(length, count, end_size):
     if abs(count * end_size - length) / length < constants.TOL:
         return 1
 
+    if not (length > end_size > 0):
+        raise ValueError(f"End size {end_size} must be between 0 and length {length}, got {end_size}")
+
+    if count == 1:
+        # the same answer as for a start size: this is that chop, seen from the other end
+        return 1
+
     if count * end_size > length:
         c_max = R_MAX ** (1 / (count - 1))
         c_min = (1 + constants.TOL) ** (1 / (count - 1))
